@@ -3,7 +3,7 @@ only produce well-formed metadata.  Real text: circuit-prover/src/batch_stark_pr
 with_horner_pack_k, with_public_alu_lanes, validate}; circuit-prover/src/batch_stark_prover.rs RowCounts::{new, validate}."""
 import re
 
-from vf.extract import extract_item
+from vf.extract import ExtractError, extract_item
 from vf.unit import Unit
 
 PRELUDE = r'''
@@ -113,6 +113,7 @@ def build():
     l.rewrite('R11', 'alu_lanes.max(1)', 'usize_max(alu_lanes, 1)')
     l.requires('wf', 'self.wf()')
     l.ensures('well_formed', 'ret.wf()')
+    l.ensures('only_the_two_primitive_lane_counts_change', 'ret.horner_packed_steps == self.horner_packed_steps && ret.npo_lanes@ == self.npo_lanes@ && ret.min_trace_height == self.min_trace_height')
     v = u.extract(P, r'impl TablePacking', 'validate', 'TablePacking::validate')
     v.rewrite('R5', 'for (op_type, lanes) in &self.npo_lanes {', 'for q_ in 0..self.npo_lanes.len() { let (op_type, lanes) = (&self.npo_lanes[q_].0, &self.npo_lanes[q_].1);')
     v.rewrite('R11', '!self.min_trace_height.is_power_of_two()', '!usize_is_power_of_two(self.min_trace_height)')
@@ -120,10 +121,27 @@ def build():
     # the verifier builds its AIRs from these proof-declared numbers: widths = lanes * lane width etc. are computed unchecked (alu_air.rs, public_air.rs, alu_columns.rs)
     v.ensures('H_the_declared_lane_counts_and_packing_are_small_enough_for_the_width_arithmetic', 'ret is Ok ==> self.public_lanes < 0x1_0000_0000 && self.alu_lanes < 0x1_0000_0000 && self.horner_packed_steps < 0x1_0000_0000')
     v.loop('for q_ in 0..self.npo_lanes.len()', invariants=[('checked', 'forall|i: int| 0 <= i < q_ ==> (#[trigger] self.npo_lanes@[i]).1 > 0')])
+    # ---------------------------------------------------------------- BatchStarkProver::prove[recorded_packing]: which packing the proof records (C16 / C17 / C10)
+    # the proof's table_packing is the ONLY carrier of horner_packed_steps (and of the per-table lane overrides) to the native verifier and to the next layer's in-circuit verifier
+    from units.order import _stmt_at
+    rp = u.extract('circuit-prover/src/batch_stark_prover.rs', r'impl<SC> BatchStarkProver<SC>', 'prove', 'BatchStarkProver::prove[recorded_packing]')
+    st_ = _stmt_at(rp.body, r'let effective_packing\s*=')
+    if st_ is None:
+        raise ExtractError('lost anchor in BatchStarkProver::prove[recorded_packing]: `let effective_packing = ..;`')
+    rp.rewrites.append(('R13', 'function body := the statement `let effective_packing = ..;`, then the local effective_packing', 'everything else of prove (traces, AIRs, the STARK proof, the other metadata fields)'))
+    rp.body = '{\n' + st_ + '\neffective_packing\n}'
+    rp.set_sig('R11', 'fn prove_recorded_packing(self_table_packing: &TablePacking, public_lanes: usize, alu_lanes: usize, min_height: usize) -> TablePacking', sliced=True)
+    rp.rewrite_re('R11', r'self\s*\.table_packing\s*\.clone\(\)', 'clone_packing(self_table_packing)', min_count=0)
+    rp.requires('the_provers_packing_is_well_formed', 'self_table_packing.wf() && min_height <= 0x4000_0000_0000_0000')
+    rp.ensures('the_proof_records_the_horner_packing_and_lane_overrides_it_was_made_with',
+               'ret.horner_packed_steps == self_table_packing.horner_packed_steps && ret.npo_lanes@ == self_table_packing.npo_lanes@')
     u.text('verus! {\nimpl TablePacking {')
     for f in (n, h, mh, l, v):
         u.emit(f)
     u.text('}\n}')
+    u.text('verus! {\n#[verifier::external_body] pub fn clone_packing(p: &TablePacking) -> (r: TablePacking) ensures r.public_lanes == p.public_lanes, r.alu_lanes == p.alu_lanes, r.npo_lanes@ == p.npo_lanes@, r.min_trace_height == p.min_trace_height, r.horner_packed_steps == p.horner_packed_steps { unimplemented!() }')
+    u.emit(rp)
+    u.text('}')
 
     B = 'circuit-prover/src/batch_stark_prover.rs'
     rn = u.extract(B, r'impl RowCounts', 'new', 'RowCounts::new')
